@@ -124,7 +124,7 @@ int main(int argc, char** argv)
   mon::Rng rng(mon::seed() * 7 + 4 + mon::slice());
   fill_library(lib1, 1);
 
-  int rounds = mon::tier(24, 120);
+  int rounds = mon::tier(24, 400);
   uint64_t registry_orders = 0;
   for (int round = 0; round < rounds; round++) {
     // churn the set of live instances: destroy some (any order), create some
